@@ -10,6 +10,8 @@
 //	                        EvalString(P) | -> ;; S=<canonical form of (source file-with-P) | ->
 //	lit SPELLING PF         a numeric-literal spelling; PF = strconv.ParseFloat of the spelling without underscores
 //	                        (bits | nan | err: the float-parsing oracle); IMPL: V=<what the real reader makes of it> ;; REF=<math/big value>
+//	hist N OPS              a hash built by N operations (P key value | D key) through HashSet / HashDelete; IMPL: P=<printed> ;;
+//	                        LV=<every key of the abstract map looked up in the live hash> ;; E=<content of EvalString(P)> ;; W=<abstract map>
 //	orc TEXT                a contract of the trusted strconv oracles checked here: IMPL ok | bad
 package main
 
@@ -649,9 +651,9 @@ func main() {
 	}
 	defer os.RemoveAll(tmpdir)
 	rng := lib.NewRng(args.Seed)
-	nData, nJSON, nQS, litLen, nLit := 2000, 900, 1500, 4, 3000
+	nData, nJSON, nQS, litLen, nLit, nHist := 2000, 900, 1500, 4, 3000, 400
 	if args.Tier == "thorough" {
-		nData, nJSON, nQS, litLen, nLit = 40000, 15000, 30000, 5, 60000
+		nData, nJSON, nQS, litLen, nLit, nHist = 40000, 15000, 30000, 5, 60000, 8000
 	}
 	if args.Replay != "" {
 		replay(args.Replay)
@@ -659,6 +661,7 @@ func main() {
 		quoteStream(rng.Fork(), nQS, args.Tier == "thorough", args.Seed)
 		valueStream(rng.Fork(), nData, nJSON)
 		litStream(rng.Fork(), litLen, nLit)
+		histStream(rng.Fork(), nHist)
 	}
 	out.Extra["harness_wall_s"] = time.Since(t0).Seconds()
 	out.Close(args.Stats)
